@@ -453,11 +453,14 @@ def _add_chart(slide, t, data):
 
 @sink("series.name", variants=[[t, m, k] for t in CAT_TYPES + XY_TYPES for m in ("add", "replace") for k in (0, 1)
                                # (a new pie chart stores its first series only)
-                               if not (t.startswith("PIE") and m == "add" and k == 1)])
+                               if not (t.startswith("PIE") and m == "add" and k == 1)]
+      # the 12th of 13 series (two-digit c:idx / c:order)
+      + [[t, m, 11] for t in [x for x in CAT_TYPES if not x.startswith("PIE")][::4] + XY_TYPES[:1]
+         for m in ("add", "replace")])
 def _ser_name(env, v, s):
     t, mode, k = v
     prs, slide = _prs()
-    names = ["S1", "S2"]
+    names = ["S1", "S2"] if k < 2 else ["S%d" % (i + 1) for i in range(13)]
     names[k] = s
     if mode == "add":
         _add_chart(slide, t, _data_for(t, names=names))
